@@ -71,6 +71,7 @@ REQUIRED = ["op:gbk:dump-compare", "op:gbk:fixed-point", "op:gbk:write-repeatabl
             "class:module", "class:module-multi-cds", "class:region>=2-candidates", "class:t2pks",
             "class:header-reference", "class:external-cds-motif", "class:candidate-without-structure-after-one-with",
             "class:origin-region-with-split-numbering", "class:same-span-genes-on-both-strands",
+            "class:ten-or-more-subregions-in-identical-pairs", "history:record-read-stripped-and-annotated-again",
             "class:module-added-after-a-first-conversion"]
 
 
@@ -738,6 +739,8 @@ def count_classes(ctx, facts: dict, spec: dict):
         ctx.count("class:region>=2-candidates")
     if facts["same_span_genes_on_both_strands"]:
         ctx.count("class:same-span-genes-on-both-strands")
+    if facts["subregions"] >= 10:
+        ctx.count("class:ten-or-more-subregions-in-identical-pairs")
     if facts["candidates_with_structure"]:
         ctx.count("class:candidate-with-structure")
     if facts["candidate_without_structure_after_one_with"]:
@@ -784,6 +787,22 @@ def run_case(ctx, spec: dict):
     base_facts = {"circular": facts["circular"]}
     for fmt, (write, read, forward) in FORMATS.items():
         one_format(ctx, fmt, write, read, forward, record, case, base_facts)
+    # a later run on the earlier output: the record is read back, stripped of antiSMASH's annotations and annotated
+    # again with another outcome (other protoclusters, functions, domains); that record must survive the round trips too
+    if spec["seq_seed"] % 4 == 1:
+        try:
+            earlier = read_gbk(write_gbk(record))
+            earlier.record_index = 1
+            earlier.strip_antismash_annotations()
+            rerun = A.annotate(earlier, A.reannotation_spec(spec))
+        except Exception as err:  # pylint: disable=broad-except
+            ctx.count("skipped:reannotation-not-possible:" + type(err).__name__)
+            return
+        ctx.count("history:record-read-stripped-and-annotated-again")
+        case_b = {"spec": spec, "history": "read-strip-annotate-again"}
+        facts_b = {"circular": facts["circular"], "history": "read-strip-annotate-again"}
+        for fmt, (write, read, forward) in FORMATS.items():
+            one_format(ctx, fmt, write, read, forward, rerun, case_b, facts_b)
 
 
 def _prepeptide_space(reread) -> bool:
